@@ -33,7 +33,7 @@ Field(e, f, dflt) == IF f \in DOMAIN e THEN e[f] ELSE dflt
 
 \* the spec action for one recorded API action
 Apply(s0, e) ==
-  LET s == ApiClearLogs(s0) IN
+  LET s == ApiClearLogs(IF Ok(s0) THEN s0 ELSE Recover(s0)) IN
   CASE e.a = "var"      -> ApiVar(s, e.v)
     [] e.a = "const"    -> ApiConst(s, e.v)
     [] e.a = "map"      -> ApiMap(s, e.f, e["in"], Field(e, "eff", <<>>))
@@ -76,8 +76,9 @@ SortedInvOf(inv) ==
 
 JudgeReads(post, obs) ==
   {LET r == obs.reads[o]
-       w == RefRead(post, o)
-   IN Viol(IF \E m \in ConeOf(post, {post.onode[o]}, {}) : post.def[m].k = "expert" THEN "C14"
+       w == RefReadS(post, o)
+   IN Viol(IF post.poisoned THEN "C13"
+           ELSE IF \E m \in ConeOf(post, {post.onode[o]}, {}) : post.def[m].k = "expert" THEN "C14"
            ELSE IF r[1] = "ok" /\ w[1] = "ok" THEN "C01"
            ELSE IF r[2] = "ObservingInvalid" \/ w[2] = "ObservingInvalid" THEN "C03"
            ELSE "C10",
@@ -85,7 +86,7 @@ JudgeReads(post, obs) ==
      o \in {x \in 1..Min(post.no, Len(obs.reads)) :
               /\ obs.reads[x][1] # "gone"
               /\ ~(post.ostate[x] = "inuse" /\ ~ExactCone(post, post.onode[x]))
-              /\ obs.reads[x] # RefRead(post, x)}}
+              /\ obs.reads[x] # RefReadS(post, x)}}
 
 \* invocation log of the round against the reference (C02, C03, C05, C06)
 JudgeInv(pre, obs, coneB) ==
@@ -114,6 +115,11 @@ JudgeInv(pre, obs, coneB) ==
                  /\ pre.def[n].k \in {"map", "map2", "fold", "lhs"}
                  /\ \A c \in 1..Len(pre.def[n].ins) : pre.valid[pre.def[n].ins[c]]
                  /\ gotSorted[j].args # ArgsOf(pre, n)}}
+
+\* C07: reads issued from inside user functions of the round
+JudgeInReads(pre, obs) ==
+  LET got == [i \in 1..Len(obs.inreads) |-> [o |-> obs.inreads[i].o, r |-> obs.inreads[i].r]] IN
+  IF got = pre.readLog THEN {} ELSE {Viol("C07", <<"reads inside functions", got, "expected", pre.readLog>>)}
 
 JudgeVars(post, obs) ==
   {Viol("C08", <<"var", v, "holds", obs.cells[v], "expected", post.cell[v]>>) :
@@ -255,9 +261,10 @@ TraceStep ==
               post == IF e.a = "stabilise" THEN StabiliseFinish(pre) ELSE pre
               obs == e.obs
               bad == JudgePanic(post, obs)
+                     \cup (IF obs.panic # "" /\ ~Ok(post) THEN JudgeReads(Recover(post), obs) ELSE {})
                      \cup (IF obs.panic = "" /\ Ok(post)
                            THEN JudgeReads(post, obs) \cup JudgeVars(post, obs) \cup JudgeRets(post, obs)
-                                \cup (IF e.a = "stabilise" THEN JudgeInv(pre, obs, coneB) \cup JudgeDlv(pre, obs) ELSE {})
+                                \cup (IF e.a = "stabilise" THEN JudgeInv(pre, obs, coneB) \cup JudgeDlv(pre, obs) \cup JudgeInReads(pre, obs) ELSE {})
                                 \cup JudgeAudit(post, obs)
                            ELSE {})
               div == IF obs.panic = "" /\ Ok(post) THEN Diverge(post, obs.snap)
